@@ -7,12 +7,55 @@ COMMON_D_ASSUMPTIONS = [
     "tracing macros are no-ops; spawn pushes a task on a list that the harness runs; mpsc channels are unbounded recorders",
 ]
 
+STORE_ASSUMPTIONS = COMMON_D_ASSUMPTIONS + [
+    "file system is the in-memory shim (write/read/remove on a path->bytes map); a torn write leaves a strict prefix of the new content",
+    "record encryption uses the real aes-gcm-siv/hkdf crates iff ant-node's default features forward encrypt-records to ant-networking (read from ant-node/Cargo.toml on every run)",
+    "background tasks of one key run in issue order (the property's own wording); tasks of different keys in any order",
+    "same node identity after restart => same encryption seed (driver.rs derives it from the keypair; not re-verified)",
+]
+
 PROPS = {
+    "C01": {
+        "parts": [
+            {"engine": "D", "crate": "d_net", "harnesses": [
+                {"name": "c01_history", "id": "c01_history_2keys_2ops", "covers": ["settled", "settled_value", "settled_removed", "get_returned_value"],
+                 "quick": {"env": {"C01_KEYS": 2, "C01_OPS": 2}, "max_paths": 100000, "timeout": 900},
+                 "thorough": {"env": {"C01_KEYS": 2, "C01_OPS": 3}, "max_paths": 1000000, "timeout": 3000}},
+                {"name": "c01_history", "id": "c01_history_1key_3ops", "covers": ["settled", "settled_value", "settled_removed"],
+                 "quick": {"env": {"C01_KEYS": 1, "C01_OPS": 3}, "max_paths": 100000, "timeout": 900},
+                 "thorough": {"env": {"C01_KEYS": 3, "C01_OPS": 2}, "max_paths": 1000000, "timeout": 3000}},
+            ]},
+        ],
+        "assumptions": STORE_ASSUMPTIONS + ["disk writes succeed (write failures are RemoveFailedLocalRecord's subject, not part of this claim)",
+                                            "cache timestamps are a symbolic non-decreasing 64-bit clock (equal timestamps allowed)"],
+        "bounds": {"quick": "2 keys x 2 operations and 1 key x 3 operations from {put v0/v1, remove, get}, cache size 1..2, every interleaving of background tasks/notifications between operations",
+                   "thorough": "2 keys x 3 operations and 3 keys x 2 operations"},
+        "outside": ["longer histories, more keys", "real disk and OS caching", "same-key task reordering (outside the property's wording)", "capacity effects (C10)"],
+    },
+    "C02": {
+        "parts": [
+            {"engine": "D", "crate": "d_net", "harnesses": [
+                {"name": "c02_crash", "id": "c02_crash_2keys_2ops", "covers": ["restarted", "torn_write", "durable_value", "durable_removed", "served_after_restart"],
+                 "quick": {"env": {"C02_KEYS": 2, "C02_OPS": 2}, "max_paths": 200000, "timeout": 900},
+                 "thorough": {"env": {"C02_KEYS": 2, "C02_OPS": 3}, "max_paths": 3000000, "timeout": 3400}},
+            ]},
+        ],
+        "assumptions": STORE_ASSUMPTIONS + ["crash model: a subset of pending tasks (FIFO per key) has run; at most one write is torn at an arbitrary byte prefix; notifications are lost"],
+        "bounds": {"quick": "2 keys x 2 operations from {put v0/v1, remove}, every subset/order of background tasks, every prefix length of one torn record file",
+                   "thorough": "2 keys x 3 operations"},
+        "outside": ["real fsync / page cache behaviour", "more keys and operations", "several torn files at once"],
+    },
     "C10": {
         "parts": [
             {"engine": "D", "crate": "d_net", "harnesses": [
                 {"name": "c10_put_step", "covers": ["below_capacity", "at_capacity_accept", "at_capacity_refuse"],
                  "quick": {"max_paths": 20000, "timeout": 600}, "thorough": {"max_paths": 200000, "timeout": 3000}},
+                {"name": "c10_burst", "covers": ["both_accepted"],
+                 "quick": {"max_paths": 20000, "timeout": 600}},
+                {"name": "c10_cleanup", "covers": ["applies", "not_applicable", "removed_some"],
+                 "quick": {"max_paths": 20000, "timeout": 600}},
+                {"name": "c10_metrics", "covers": ["with_range", "without_range"],
+                 "quick": {"max_paths": 50000, "timeout": 600}},
             ]},
         ],
         "assumptions": COMMON_D_ASSUMPTIONS + [
